@@ -4353,6 +4353,18 @@ fn corpus_scripts() -> Vec<ScriptCase> {
         mk_tagged("open-symlink-not-followed", "cat < lnk_loop1; echo $?"),
         // known deviation of the simulator (F28): the killed shell runs on
         mk_tagged("killed-process-keeps-running", "(kill -s TERM $$); echo x > n1"),
+        // known deviation of the simulator (F48): two asynchronous writers on one pipe,
+        // each with more than the pipe holds: the first to finish clears O_NONBLOCK
+        // on the shared open file description (TemporaryNonBlockingGuard), the other
+        // then blocks inside the simulated write and run_virtual never polls it again
+        mk_tagged(
+            "concurrent-pipe-writers-deadlock",
+            "x=abcdefgh; x=$x$x$x$x; x=$x$x$x$x; x=$x$x$x$x; x=$x$x$x$x; { echo $x & echo $x & wait; } | cat | { while read -r l; do :; done; }; echo $?",
+        ),
+        mk_tagged(
+            "concurrent-pipe-writers-deadlock",
+            "x=abcdefgh; x=$x$x$x$x; x=$x$x$x$x; x=$x$x$x$x; x=$x$x$x$x; { echo $x$x & echo $x & echo $x$x$x & wait; } | cat | { while read -r l; do :; done; }; echo $?",
+        ),
         // F6: the simulated fork did not copy umask / cwd
         mk("umask 077; (umask); cd d; (pwd); (echo x > made); umask"),
         // F8: wait for any child while an older child is still alive
